@@ -241,16 +241,30 @@ def decision_table(fnode, max_atoms=10):
 
 def same_decisions(fa, fb):
     """two functions (locals written out) take the same decision under every assignment of the union of their test atoms;
-    returns (equal?, first difference text)"""
+    returns (equal?, first difference text).  Dict results are compared as values: a dict built in one literal, per arm, or key by key
+    (`d = {..}; d['k'] = v`, also nested through a local) renders to the same sorted text.  A `try .. except` is read with one more
+    atom: whether the guarded body raises (then the first handler runs instead of the body)."""
     import itertools
     aa, ab = _all_atoms(fa), _all_atoms(fb)
     atoms = aa + [x for x in ab if x not in aa]
+    if any(isinstance(n, ast.Try) for fn in (fa, fb) for n in ast.walk(fn)):
+        atoms.append('$raises')
     if len(atoms) > 12:
         raise CannotAnalyse(f'decision table: {len(atoms)} atoms')
 
     def outcome(fn, env):
         class Out(Exception):
             pass
+        dicts = {}
+
+        def render(e):
+            if e is None:
+                return 'None'
+            if isinstance(e, ast.Name) and e.id in dicts:
+                return '{' + ','.join(f'{k!r}:{v}' for k, v in sorted(dicts[e.id].items())) + '}'
+            if isinstance(e, ast.Dict) and all(isinstance(k, ast.Constant) for k in e.keys):
+                return '{' + ','.join(f'{k.value!r}:{render(v)}' for k, v in sorted(zip(e.keys, e.values), key=lambda kv: repr(kv[0].value))) + '}'
+            return ast.unparse(e).replace(' ', '')
 
         def run(stmts):
             for s in stmts:
@@ -258,10 +272,22 @@ def same_decisions(fa, fb):
                     continue
                 if isinstance(s, ast.If):
                     run(s.body if _value(s.test, env) else s.orelse)
+                elif isinstance(s, ast.Try):
+                    if env.get('$raises') and s.handlers:
+                        run(s.handlers[0].body)
+                    else:
+                        run(list(s.body) + list(s.orelse))
+                    run(s.finalbody)
                 elif isinstance(s, ast.Return):
-                    raise Out(ast.unparse(s.value).replace(' ', '') if s.value is not None else 'None')
+                    raise Out(render(s.value))
                 elif isinstance(s, ast.Raise):
                     raise Out('raise')
+                elif isinstance(s, ast.Assign) and len(s.targets) == 1 and isinstance(s.targets[0], ast.Name) and \
+                        isinstance(s.value, ast.Dict) and all(isinstance(k, ast.Constant) for k in s.value.keys):
+                    dicts[s.targets[0].id] = {k.value: render(v) for k, v in zip(s.value.keys, s.value.values)}
+                elif isinstance(s, ast.Assign) and len(s.targets) == 1 and isinstance(s.targets[0], ast.Subscript) and \
+                        isinstance(s.targets[0].value, ast.Name) and s.targets[0].value.id in dicts and isinstance(s.targets[0].slice, ast.Constant):
+                    dicts[s.targets[0].value.id][s.targets[0].slice.value] = render(s.value)
                 elif isinstance(s, ast.Assign) and len(s.targets) == 1 and isinstance(s.targets[0], ast.Name) and s.targets[0].id in bl:
                     try:
                         env['$' + s.targets[0].id] = bool(_value(s.value, env))
